@@ -119,6 +119,15 @@ pub fn gen_case(t: &mut Tape) -> Case {
         }
         src.push_str(&format!("{q}fn gpick<'a>(xs: &'a [u64]) -> &'a u64 {{ let v = vec![xs[0]]; {y}&xs[(v[0] % 2) as usize] }}\n"));
     }
+    // ... and an entraited trait with methods that take `self` by value (default delegation to `Self`)
+    let byval = t.weighted(&[2, 1, 1]); // 0 none, 1 `?Send`, 2 `Send` supertrait
+    if byval > 0 {
+        let (opt, sup) = if byval == 1 { ("?Send", "") } else { ("", ": Send") };
+        src.push_str(&format!(
+            "#[::entrait::entrait({opt})]\npub trait ByVal{sup} {{ async fn consume(self, x: u64) -> u64; fn consume_sync(self, x: u64) -> u64; }}\n#[derive(Clone, Copy)] pub struct Bv;\n\
+             impl ByVal for Bv {{ async fn consume(self, x: u64) -> u64 {{ let v = vec![x, x]; rt::yield_once().await; v[1] + 1 }} fn consume_sync(self, x: u64) -> u64 {{ let v = vec![x]; v[0] + 2 }} }}\n"
+        ));
+    }
     let top_async = is_async(0);
     let call = |e: &str| if top_async { format!("rt::block_on_pinned({e})") } else { e.to_string() };
     src.push_str(&format!(
@@ -127,15 +136,24 @@ pub fn gen_case(t: &mut Tape) -> Case {
         call(&format!("app.f0(5{top_tag})")),
         call(&format!("g0(7{top_tag})")),
         call(&format!("app.f0(7{top_tag})")),
-        if pick > 0 {
+        if pick > 0 || byval > 0 {
             let c = |e: &str| if pick == 1 { format!("rt::block_on_pinned({e})") } else { e.to_string() };
-            format!(
+            let byval_src = if byval > 0 {
+                "    let _w = (rt::block_on_pinned(ByVal::consume(Bv, 1)), rt::block_on_pinned(ByVal::consume(::entrait::Impl::new(Bv), 1)), ByVal::consume_sync(Bv, 1), ByVal::consume_sync(::entrait::Impl::new(Bv), 1));\n    let c0 = rt::allocs();\n    let v_plain = (rt::block_on_pinned(ByVal::consume(Bv, 5)), ByVal::consume_sync(Bv, 5));\n    let c1 = rt::allocs();\n    let v_via = (rt::block_on_pinned(ByVal::consume(::entrait::Impl::new(Bv), 5)), ByVal::consume_sync(::entrait::Impl::new(Bv), 5));\n    let c2 = rt::allocs();\n    rt::expect_eq(&mut fails, \"by-value trait methods: result\", &v_via, &v_plain);\n    rt::expect_eq(&mut fails, \"by-value trait methods: heap allocations through Impl<T> vs direct\", &(c2 - c1), &(c1 - c0));\n".to_string()
+            } else {
+                String::new()
+            };
+            if pick == 0 {
+                byval_src
+            } else {
+            byval_src + &format!(
                 "    let xs = [4u64, 9u64];\n    let _w = (*{}, *{});\n    let b0 = rt::allocs();\n    let p_plain = *{};\n    let b1 = rt::allocs();\n    let p_via = *{};\n    let b2 = rt::allocs();\n    rt::expect_eq(&mut fails, \"borrowed-output fn: result\", &p_via, &p_plain);\n    rt::expect_eq(&mut fails, \"borrowed-output fn: heap allocations through the trait vs direct\", &(b2 - b1), &(b1 - b0));\n",
                 c("gpick(&xs)"),
                 c("app.pick(&xs)"),
                 c("gpick(&xs)"),
                 c("app.pick(&xs)")
             )
+            }
         } else {
             String::new()
         }
@@ -152,6 +170,9 @@ pub fn gen_case(t: &mut Tape) -> Case {
     }
     if pick > 0 {
         classes.push("output_borrows_through_lifetime_parameter");
+    }
+    if byval > 0 {
+        classes.push("trait_methods_taking_self_by_value");
     }
     let summary = format!("chain depth {depth}, async levels {first_sync}, end {}{}", ["entraited fn", "statically delegated leaf trait", "statically delegated impl block", "`no_deps` fn"][end], if end_async { " (async)" } else { "" });
     Case { src, summary, nontrivial: any_async || depth >= 2, classes }
